@@ -158,3 +158,27 @@ package process
 //@   requires[C09] formOK(self) && gamma != nil && globalEnv != nil
 //@   ensures C05.lin: result == nil ==> lin(self, old(dom(gamma)), sh)
 //@   decreases[C09] fsize(self)
+
+//@ contract copyContext
+//@   ensures C05.copy: result != nil && fresh(result) && dom(result) == dom(orig) && (forall k string :: has(orig, k) ==> result[k] == orig[k])
+//@   loop 1 invariant copy != nil && dom(copy) == visited && (forall k string :: visited[k] ==> has(orig, k) && copy[k] == orig[k])
+//@   safety C09
+
+//@ contract (*CaseForm).typecheckForm
+//@   loop 1 invariant dom(gammaNameTypesCtx) == old(dom(gammaNameTypesCtx))
+//@   loop 1 invariant (forall k int :: 0 <= k && k <= idx ==> lin(p.branches[k].continuation_e, old(dom(gammaNameTypesCtx)), addr(p.branches[k], BranchForm, payload_c)))
+//@   loop 2 invariant dom(gammaNameTypesCtx) == remove(old(dom(gammaNameTypesCtx)), p.from_c.Ident)
+//@   loop 2 invariant (forall k int :: 0 <= k && k <= idx ==> !remove(old(dom(gammaNameTypesCtx)), p.from_c.Ident)[p.branches[k].payload_c.Ident] &&
+//@        lin(p.branches[k].continuation_e, add(remove(old(dom(gammaNameTypesCtx)), p.from_c.Ident), p.branches[k].payload_c.Ident), providerShadowName))
+
+//@ contract (*CallForm).typecheckForm
+//@   loop 1 invariant 1 <= i && i <= len(p.parameters)
+//@   loop 1 invariant (forall x string :: has(gammaNameTypesCtx, x) ==> old(dom(gammaNameTypesCtx))[x])
+//@   loop 1 invariant (forall j int :: 1 <= j && j < i ==> !p.parameters[j].IsSelf && old(dom(gammaNameTypesCtx))[p.parameters[j].Ident] && !has(gammaNameTypesCtx, p.parameters[j].Ident))
+//@   loop 1 invariant (forall j int, k int :: 1 <= j && j < k && k < i ==> p.parameters[j].Ident != p.parameters[k].Ident)
+//@   loop 1 invariant (forall x string :: old(dom(gammaNameTypesCtx))[x] ==> has(gammaNameTypesCtx, x) || (exists j int :: 1 <= j && j < i && p.parameters[j].Ident == x))
+//@   loop 2 invariant 0 <= i && i <= len(p.parameters)
+//@   loop 2 invariant (forall x string :: has(gammaNameTypesCtx, x) ==> old(dom(gammaNameTypesCtx))[x])
+//@   loop 2 invariant (forall j int :: 0 <= j && j < i ==> !p.parameters[j].IsSelf && old(dom(gammaNameTypesCtx))[p.parameters[j].Ident] && !has(gammaNameTypesCtx, p.parameters[j].Ident))
+//@   loop 2 invariant (forall j int, k int :: 0 <= j && j < k && k < i ==> p.parameters[j].Ident != p.parameters[k].Ident)
+//@   loop 2 invariant (forall x string :: old(dom(gammaNameTypesCtx))[x] ==> has(gammaNameTypesCtx, x) || (exists j int :: 0 <= j && j < i && p.parameters[j].Ident == x))
